@@ -32,7 +32,7 @@ pub struct SimpleStats {
 
     /// Time stats
     t_between_blocks: Vec<u32>,
-    last_timestamp: u32,
+    last_timestamp: Option<u32>,
 }
 
 impl Default for SimpleStats {
@@ -50,7 +50,7 @@ impl Default for SimpleStats {
             n_tx_types: HashMap::new(),
             tx_first_occs: HashMap::new(),
             t_between_blocks: vec![],
-            last_timestamp: 0,
+            last_timestamp: None,
         }
     }
 }
@@ -250,16 +250,16 @@ impl Callback for SimpleStats {
         }
 
         // Save time between blocks
-        if self.last_timestamp > 0 {
+        if let Some(last_timestamp) = self.last_timestamp {
             let diff = block
                 .header
                 .value
                 .timestamp
-                .checked_sub(self.last_timestamp)
+                .checked_sub(last_timestamp)
                 .unwrap_or_default();
             self.t_between_blocks.push(diff);
         }
-        self.last_timestamp = block.header.value.timestamp;
+        self.last_timestamp = Some(block.header.value.timestamp);
         #[cfg(rbp_verif)]
         if crate::verif::on() {
             let mut types: Vec<String> = self.n_tx_types.iter().map(|(p, n)| {
